@@ -144,6 +144,14 @@ def gen_case(rng, cfg, big_ok, idx):
     script += body_ops
     if use_cache and rng.random() < 0.85:
         script.append("T" + key)
+        if is_async and rng.random() < 0.5:       # async_flush_output after store_page (which finalizes) must not announce eof again
+            script += ["f"] * rng.randrange(1, 3)
+    elif rng.random() < 0.12:
+        # explicit finalize() (documented for asynchronous applications), possibly followed by async_flush_output
+        # (a synchronous out().flush() on the finalized stream only sets badbit when gzip_buf is closed: not generated)
+        script.append("Z")
+        if is_async:
+            script += ["f"] * rng.randrange(0, 3)
     sched = []
     for _ in range(rng.choice((0, 0, 1, 3, 6, 12, 30))):
         r = rng.random()
